@@ -172,7 +172,12 @@ ZONE = st.one_of(st.none(), st.sampled_from(["GMT", "EST", "UTC", "CET", "A/B", 
 
 
 def _trimmed(s):
-    return bool(s) and not s[0].isspace() and not s[-1].isspace()
+    """Non-empty, no leading/trailing whitespace - judged on the value the model will *hold*: the
+    descriptor applies the wire entity decoder to Python values too, so '&nbsp;x' is stored as ' x'."""
+    if not (bool(s) and not s[0].isspace() and not s[-1].isspace()):
+        return False
+    d = R.decode_entities(s)
+    return bool(d) and not d[0].isspace() and not d[-1].isspace()
 
 
 def string_st(limit, markup=True):
